@@ -6,7 +6,7 @@ owning object's latch state sampled at the instant of the write) and on the
 objects' err / port attributes after every op.  DESIGN.md section 7, C04.
 """
 
-from common import (V, pair_faults, E3_METHODS, E3_NAMES, E3_CANON, EXC_ALL, EXC_SERIAL, failish, req_name, ebb_spec,
+from common import (V, pair_faults, CMD_TEXTS, QRY_TEXTS, E3_METHODS, E3_NAMES, E3_CANON, EXC_ALL, EXC_SERIAL, failish, req_name, ebb_spec,
                     PORT_NAMES, distinct_ram, mk_ops, call, discover, single_faults, with_faults, reply_fault,
                     wrong_line)
 
@@ -222,6 +222,11 @@ def _block(obj):
         ops.append(call(obj, m, a, k))
     for ent in BLOCKED_EXTRA:
         ops.append(call(obj, ent[0], ent[1], ent[2] if len(ent) > 2 else None))
+    # every request name the pools know, through the raw command / query entry points (no name is exempt)
+    for t in CMD_TEXTS:
+        ops.append(call(obj, 'command', [t]))
+    for t in QRY_TEXTS:
+        ops.append(call(obj, 'query', [t]))
     return ops
 
 
@@ -245,7 +250,7 @@ def _world(fw=(3, 0, 2), kind='ebb', **kw):
 
 
 CONNECT_FAILS = ['old_fw', 'foreign', 'silent', 'open_fails', 'no_device', 'unknown_name', 'never_connected',
-                 'io_faults', 'both_late']
+                 'io_faults', 'both_late', 'app_records_empty', 'app_records_text']
 
 
 def sweep_cells(tier):
@@ -301,6 +306,9 @@ def sweep_expand(cell):
         ops.append(call(0, 'connect', ['NoSuchBoard']))
     elif kind == 'never_connected':
         pass
+    elif kind in ('app_records_empty', 'app_records_text'):
+        ops.append(call(0, 'connect'))
+        ops.append(call(0, 'record_error', ['' if kind == 'app_records_empty' else 'application says stop']))
     elif kind == 'both_late':
         ops.append(call(0, 'connect'))
     elif kind == 'io_faults':
@@ -372,6 +380,8 @@ def gen(rng, idx):
             connected_hint[k] = False
         elif r < 0.12:
             ops.append(call(k, 'connect'))
+        elif r < 0.135:
+            ops.append(call(k, 'record_error', [rng.choice(['', 'application says stop', 'x'])]))
         else:
             m = rng.choice(base_names if only_base[k] else E3_NAMES)
             if m in ('reboot', 'bootload') and rng.random() < 0.6:
